@@ -1,4 +1,4 @@
-from .common import LEAN_TB
+from .common import LEAN_TB, WSFRAME_TB
 
 PROP = {
         "id": "C16",
@@ -12,6 +12,13 @@ PROP = {
             "Sonic.Props.C16.C16_order_complete",
             "Sonic.Props.C16.C16_order_complete_init",
             "Sonic.Props.C16.C16_wire_parses",
+            # tie T: the frame header logic regenerated from frame.go / rfc6455.go / util/bytes.go (Props/WsFrameTie.lean)
+            "Sonic.Props.C16.C16_tie_setters",
+            "Sonic.Props.C16.C16_tie_named_opcode_setters",
+            "Sonic.Props.C16.C16_tie_offsets",
+            "Sonic.Props.C16.C16_tie_extend_slice",
+            "Sonic.Props.C16.C16_tie_set_payload_length",
+            "Sonic.Props.C16.C16_tie_length_class_boundaries",
         ],
         "runs": [{
             "component": "wswrite",
@@ -27,7 +34,9 @@ PROP = {
                 "byte-at-a-time transport. crypto/rand.Reader is replaced by a seeded generator so that the masking keys are reproducible; they are "
                 "environment values for the model. Non-trivial = the model reached a non-default branch (length form 16/64, empty payload, no "
                 "SetPayload, stale pooled length, partial writes, would-block, in-flight, waiters, cancelled, above max, ...)",
-        "trusted_base": LEAN_TB + [
+        "trusted_base": LEAN_TB + WSFRAME_TB + [
+            "of the hand-written models below, the bit setters, maskOffset/payloadOffset, ExtendSlice and setPayloadLength of Model/WsEncode.lean are in "
+            "addition proved equal to the code regenerated from the source (C16_tie_*); SetPayload's copy, MaskPayload, Encode and the stream write path are not",
             "Model/WsEncode.lean, Model/WsWritePath.lean are hand-written models of frame.go (SetPayload/setPayloadLength/MaskPayload/...), util.go Mask, "
             "util/bytes.go ExtendSlice, frame_codec.go Encode, stream.go (Write/WriteFrame/AsyncWrite/AsyncWriteFrame/prepareWrite/Flush/AsyncFlush/"
             "Close/prepareClose) and codec.go WriteNext/AsyncWriteNext at frame granularity; tied to the source only by the correspondence check",
@@ -54,7 +63,8 @@ PROP = {
                       "bytes are always a prefix of the concatenation of the queued frames in submission order (each complete before the next), a "
                       "blocking call returning nil leaves nothing queued, a message above the maximum is refused with nothing written or queued, and "
                       "at quiescence the independent RFC 6455 parser recovers exactly one well-formed masked frame per accepted submission. Outside "
-                      "the theorems: overlap of blocking and asynchronous writes (C17), transport errors, the server role.",
+                      "the theorems: overlap of blocking and asynchronous writes (C17), transport errors, the server role."
+                      " Tie T (regenerated from the source on every run, Sonic/Gen/WsFrameBits.lean): SetFIN/SetRSV1-3/SetIsMasked/SetOpcode (and the named opcode setters), maskOffset/payloadOffset, util.ExtendSlice and setPayloadLength are proved equal to the model's definitions for every pooled frame (array + length, any stale contents) and every length, with the length-class boundaries 125/126 and 65535/65536 also evaluated on the generated code itself. Still hand-written and tied only by traces: SetPayload's copy, MaskPayload/Mask/GenMask, Encode, and the stream write path (Model/WsEncode.lean beyond the functions named, Model/WsWritePath.lean).",
         "design_ref": "5/C16",
         "level_note": "Trusted: Lean kernel; the hand-written models of frame.go/util.go/util/bytes.go/frame_codec.go Encode/stream.go write path and "
                       "of the harness transport (validated on every run by the differential trace check against a real websocket.Stream with "
